@@ -27,6 +27,10 @@ def _lg(t, v):
 
 # --------------------------------------------------------------------------- fake block sampler
 
+class _StopRun(Exception):
+    """The run ends here (a violation has been recorded and the object is in no defined state)."""
+
+
 def make_fake_class():
     import cuqi.experimental.mcmc as M
 
@@ -84,6 +88,7 @@ class HybridRun:
         g = self.build()
         twin, tdata = zoo.gibbs_joint(sc["joint"])        # pristine, never touched by the sampler
         self.twin_probes = tdata["probes"]
+        self.tdata = tdata
         names = list(g.par_names)
         # fault injection: the forward model returns NaN at proposals of an MH/CWMH block on x
         pf = self.probes.get("forward")
@@ -135,7 +140,7 @@ class HybridRun:
                     if not bit_equal(smp.current_point, cur[name]):
                         ctx.violate(PROP, "start_from_current", self.sig(block_kind=kind), block=name,
                                     got=as_vec(smp.current_point), expected=cur[name], sweep=len(hist))
-                    st["pre"][name] = {"rng": np.random.get_state(), "T": T,
+                    st["pre"][name] = {"rng": np.random.get_state(), "T": T, "others": {k_: v_.copy() for k_, v_ in others.items()},
                                        "trace_mark": len(pf.trace) if pf is not None else 0,
                                        "state": dict(smp.get_state()["state"]) if kind != "Fake" else None,
                                        "start": as_vec(smp.current_point)}
@@ -151,6 +156,15 @@ class HybridRun:
                 self.in_step["name"] = name
                 try:
                     r = orig()
+                except core.SimCrash:
+                    raise
+                except Exception as e:
+                    if rate or (pf is not None and any(k_ is not None for (a_, v_, k_) in pf.trace)):
+                        raise
+                    # the block update itself fails on a valid configuration, with no fault injected anywhere
+                    ctx.violate(PROP, "block_update_raised", self.sig(block_kind=kind, exc=type(e).__name__), block=name,
+                                err=str(e)[:200])
+                    raise _StopRun()
                 finally:
                     self.in_step["name"] = None
                 ctx.count("transitions")
@@ -162,6 +176,7 @@ class HybridRun:
                         pre["faulted"] = [i + 1 for i, (a_, v_, k_) in enumerate(pf.trace[pre["trace_mark"]:])
                                           if k_ is not None] if pf is not None else []
                         self.standalone_replay(name, kind, smp, pre, result)
+                        self.reference_kernel(name, kind, pre, result)
                     else:
                         exp = st["pre"][name]["start"]
                         for _ in range(steps[name]):
@@ -217,6 +232,8 @@ class HybridRun:
                     g.warmup(int(op["n"]))
                 elif op["op"] == "sample":
                     g.sample(int(op["n"]))
+            except _StopRun:
+                return
             except core.SimCrash:
                 # the aborted sweep was not stored; blocks updated before the abort keep their new values
                 del visits[:]
@@ -241,6 +258,31 @@ class HybridRun:
                         break
 
     # ---------------------------------------------------------------------------------------
+    def reference_kernel(self, name, kind, pre, result):
+        """'drawing from the joint target conditioned on the current values of the other blocks': for the closed-form
+        kernels (conjugate pairs, randomise-then-optimise) the update is recomputed from the recipe of the joint by
+        sim/refkernels.py on the same entropy tape."""
+        from sim import refkernels
+        ctx = self.ctx
+        if pre.get("faulted"):
+            return
+        post_rng = np.random.get_state()
+        try:
+            ref = refkernels.reference_draw(self.sc["joint"], self.tdata, name, kind, self.sc["strategy"][name]["knobs"],
+                                            pre["others"], pre["start"], pre["rng"], self.sc["steps"].get(name, 1))
+        except refkernels.Undecided as e:
+            ctx.undecided(str(e))
+            return
+        finally:
+            np.random.set_state(post_rng)
+        if ref is None:
+            return
+        ctx.count("decisions")
+        ctx.count("reference_kernel_compared")
+        if ref.shape != result.shape or not np.allclose(ref, result, rtol=1e-7, atol=1e-9):
+            ctx.violate(PROP, "reference_kernel", self.sig(block_kind=kind, shape=self.sc["joint"]["shape"]), block=name,
+                        got=result, expected=ref)
+
     def standalone_replay(self, name, kind, smp, pre, result):
         """'drawn by its assigned sampler from the conditional': a freshly built sampler of the same class
         and tuning state on the pristine conditional target, started from cur[b] on the same tape, must
@@ -304,11 +346,30 @@ class LegacyRun:
         d.update(k)
         return d
 
+    def reference_kernel(self, name, kind, knobs, others, start, tape, result):
+        from sim import refkernels
+        ctx = self.ctx
+        post_rng = np.random.get_state()
+        try:
+            ref = refkernels.reference_draw(self.sc["joint"], self.tdata, name, kind, knobs, others, start, tape, 1)
+        except refkernels.Undecided as e:
+            ctx.undecided(str(e))
+            return
+        finally:
+            np.random.set_state(post_rng)
+        if ref is None:
+            return
+        ctx.count("decisions")
+        ctx.count("reference_kernel_compared")
+        if ref.shape != result.shape or not np.allclose(ref, result, rtol=1e-7, atol=1e-9):
+            ctx.violate(PROP, "reference_kernel", self.sig(block_kind=kind, shape=self.sc["joint"]["shape"]), block=name,
+                        got=result, expected=ref)
+
     def run(self):
         import cuqi.sampler as LS
         ctx, sc = self.ctx, self.sc
         J, _ = zoo.gibbs_joint(sc["joint"])
-        twin, _ = zoo.gibbs_joint(sc["joint"])
+        twin, self.tdata = zoo.gibbs_joint(sc["joint"])
         cur = {}
         visits = []
         names_box = []
@@ -345,8 +406,12 @@ class LegacyRun:
                                 ctx.undecided("freshness probe non-finite")
                         except Exception as e:
                             ctx.undecided("freshness probe raised " + type(e).__name__)
+                    tape = np.random.get_state()
                     out = w.real.step(x)
                     ctx.count("transitions")
+                    if len(cur) == len(names_box[0]):
+                        self.reference_kernel(name, st["kind"], kn, {k: v for k, v in cur.items() if k != name}, xv, tape,
+                                              as_vec(out))
                     cur[name] = as_vec(out)
                     ctx.log("block_end", name, cur[name])
                     return out
